@@ -86,6 +86,7 @@ class Constraints:
 
     def unit(self, vars_):
         """sum of squares of vars_ == 1, solved for the last variable"""
+        self.__dict__.setdefault("units", []).append(list(vars_))
         rhs = p_const(1)
         for v in vars_[:-1]:
             rhs = p_add(rhs, p_mul(p_var(v), p_var(v)), -1)
@@ -160,6 +161,105 @@ class RF:
         return RF(n, d)
 
 
+def p_subst(p, sigma):
+    """substitute constants for variables in a polynomial"""
+    out = {}
+    for m, c in p.items():
+        rest = []
+        k = c
+        for v, e in m:
+            if v in sigma:
+                k = k * sigma[v] ** e
+            else:
+                rest.append((v, e))
+        rest = tuple(rest)
+        out[rest] = out.get(rest, 0) + k
+    return {m: c for m, c in out.items() if c != 0}
+
+
+def rf_subst(r, sigma):
+    return RF(p_subst(r.n, sigma), p_subst(r.d, sigma))
+
+
+def p_vars(p):
+    return {v for m in p for v, _ in m}
+
+
+def equality_substitution(eqs, cons):
+    """exact consequences of the equality tests of a path: {var: constant}, or None when an equality is not of the form var == constant.
+    With a unit-norm constraint, one coordinate equal to +-1 forces the others to 0 (real numbers)."""
+    sigma = {}
+    for a, b in eqs:
+        d = (a - b).normal(cons)
+        if not (p_is_const(d.d) and d.d):
+            return None
+        n = d.n
+        vs = p_vars(n)
+        if len(vs) != 1:
+            return None
+        v = next(iter(vs))
+        lin = n.get(((v, 1),))
+        if lin is None or any(m not in ((), ((v, 1),)) for m in n):
+            return None
+        sigma[v] = -n.get((), Fraction(0)) / lin
+    for us in getattr(cons, "units", []):
+        for v in us:
+            if sigma.get(v) in (Fraction(1), Fraction(-1)):
+                for w in us:
+                    if w != v:
+                        sigma[w] = Fraction(0)
+    return sigma
+
+
+def float_witness(sigma, eqs, cons, variables, u=Fraction(1, 2 ** 53)):
+    """a point of the *floating-point* neighbourhood of the equality set: inputs for which the rounded comparisons of the path still hold.
+    Coordinates forced to 0 by a unit constraint become s*d_i with s^2 |d|^2 / 2 < u (so that the coordinate compared with +-1 still rounds to
+    it); a coordinate compared with 0 becomes 1e-160; every other variable gets a generic value, other unit sets a rational point of the sphere."""
+    point = {}
+    units = getattr(cons, "units", [])
+    fixed_sets = []
+    dirs = [Fraction(3, 5), Fraction(-4, 7), Fraction(5, 9), Fraction(-2, 3), Fraction(7, 11)]
+    s = Fraction(1, 10 ** 8)
+    for us in units:
+        one = [v for v in us if sigma.get(v) in (Fraction(1), Fraction(-1))]
+        if one:
+            fixed_sets.append(us)
+            others = [w for w in us if w != one[0]]
+            n2 = Fraction(0)
+            for i, w in enumerate(others):
+                point[w] = s * dirs[i % len(dirs)]
+                n2 += point[w] ** 2
+            point[one[0]] = sigma[one[0]] * (1 - n2 / 2 - n2 * n2 / 8)
+    sphere = {2: [Fraction(3, 5), Fraction(4, 5)], 4: [Fraction(1, 2), Fraction(-1, 2), Fraction(1, 2), Fraction(1, 2)]}
+    for us in units:
+        if us in fixed_sets:
+            continue
+        pts = sphere.get(len(us))
+        if pts is None:
+            return None
+        for v, x in zip(us, pts):
+            point.setdefault(v, x)
+    gen = [Fraction(7, 10), Fraction(-13, 10), Fraction(11, 20), Fraction(9, 5), Fraction(-3, 4), Fraction(17, 10), Fraction(1, 3), Fraction(-5, 6)]
+    for i, v in enumerate(sorted(variables)):
+        if v in point:
+            continue
+        if v in sigma:
+            point[v] = sigma[v] if sigma[v] != 0 else Fraction(1, 10 ** 160)
+        else:
+            point[v] = gen[i % len(gen)] + Fraction(i, 97)
+    return point
+
+
+def rf_value(r, point):
+    n, d = p_subst(r.n, point), p_subst(r.d, point)
+    if p_vars(n) or p_vars(d):
+        return None
+    dv = d.get((), Fraction(0))
+    if dv == 0:
+        return None
+    return n.get((), Fraction(0)) / dv
+
+
 def rf_equal(a, b, cons):
     return not cons.reduce(p_add(p_mul(a.n, b.d), p_mul(b.n, a.d), -1))
 
@@ -215,6 +315,24 @@ class PathEval:
 
     def dom_call(self, name, args):
         """value of a call of a pure libm function / intrinsic, or raise Unsupported"""
+        if name.startswith("llvm.fabs.") and len(args) == 1:
+            # |x|: the sign of x is a decision of the path (shared with every other comparison of x with 0)
+            x = args[0]
+            r = self.dom_cmp("lt", x, self.dom_const(Fraction(0)))
+            if r is None:
+                key = self.dom_key(x, self.dom_const(Fraction(0)))
+                dec = self._dec_proxy
+                if key is None or dec is None:
+                    raise Unsupported("fabs of a non-constant value")
+                if key not in dec:
+                    rkey = self.dom_key(self.dom_const(Fraction(0)), x)
+                    if rkey is not None and dec.get(rkey) is True:
+                        r = False
+                    else:
+                        raise _NeedDecision(key)
+                else:
+                    r = dec[key]
+            return -x if r else x
         raise Unsupported("call of %s (outside the polynomial domain)" % name)
 
     PURE_CALLS = ()
@@ -256,6 +374,9 @@ class PathEval:
         vals = {}
         stores = {}
         conds = []
+        self.ptr_phi = {}
+        self.path_eqs = []
+        self.path_eq_names = set()
         cur = f.order[0]
         prev = None
         steps = 0
@@ -274,12 +395,14 @@ class PathEval:
                     if not src:
                         raise Unsupported("phi without incoming value for the predecessor taken")
                     vals[ins.res] = ("lazy", src[0]) if not self._is_float_type(ins.text) else self._value(src[0], vals)
+                    if re.match(r"^phi ptr ", ins.text):
+                        self.ptr_phi[ins.res] = src[0]
                 elif op == "store":
                     m = re.match(r"^store (?:volatile )?(\S+) (\S+), ptr (\S+?)(?:,|$)", ins.text)
                     if not m:
                         raise Unsupported("store form: " + ins.text[:60])
                     ty, v, ptr = m.group(1), m.group(2), m.group(3)
-                    p = self.ff.prov(ptr)
+                    p = self.pprov(ptr, vals)
                     if p.root[0] == "param" and p.off is not None and ty in ("double", "float"):
                         stores[(p.root[1], p.off)] = self._value(v, vals)
                     elif p.root[0] == "alloca":
@@ -303,7 +426,7 @@ class PathEval:
                     # decisions taken by selects / integer conversions of comparisons do not show up as branches: list them too
                     shown = {c for c, _ in conds}
                     extra = [(getattr(self, "key_show", {}).get(k, str(k))[:80], v) for k, v in dec.items() if k not in shown]
-                    return {"stores": stores, "conds": conds + [e for e in extra if not conds or len(conds) < 4]}
+                    return {"stores": stores, "conds": conds + [e for e in extra if not conds or len(conds) < 4], "eqs": list(self.path_eqs)}
                 elif op in ("switch", "invoke", "unreachable", "indirectbr"):
                     raise Unsupported("terminator " + op)
                 elif op == "call" and ("llvm.memset" in ins.text or "llvm.memcpy" in ins.text):
@@ -325,13 +448,55 @@ class PathEval:
                 raise Unsupported("block without terminator")
             prev, cur = cur, nxt
 
+    def pprov(self, ptr, vals):
+        """pointer provenance on the current path: a pointer that is a phi / select of several objects denotes, on one path, the object of the
+        incoming value actually taken (the static analysis of lib/ir.py joins them into a 'multi' root)"""
+        p = self.ff.prov(ptr)
+        if p.root[0] != "multi" and p.off is not None:
+            return p
+        over = {}
+        self._collect_ptr_choices(ptr.strip(), vals, over, 0)
+        if not over:
+            return p
+        key = tuple(sorted(over.items()))
+        cache = self.__dict__.setdefault("_pprov_cache", {})
+        if key not in cache:
+            sf = ir.FuncFacts(self.ff.mod, self.f)
+            for name, chosen in over.items():
+                sf._prov[name] = sf.prov(chosen)
+            cache[key] = sf
+        return cache[key].prov(ptr)
+
+    def _collect_ptr_choices(self, v, vals, over, depth):
+        if depth > 60 or v in over:
+            return
+        ins = self.f.defs.get(v)
+        if ins is None:
+            return
+        if ins.op == "phi":
+            ch = self.ptr_phi.get(v)
+            if ch is not None:
+                over[v] = ch
+                self._collect_ptr_choices(ch, vals, over, depth + 1)
+        elif ins.op == "select":
+            parts = ir.split_top(ins.text[len("select"):])
+            if parts[1].strip().startswith("ptr"):
+                c = self._cond(parts[0].split()[-1], vals, self._dec_proxy)
+                ch = re.sub(r"^ptr\s+", "", (parts[1] if c else parts[2]).strip()).strip()
+                over[v] = ch
+                self._collect_ptr_choices(ch, vals, over, depth + 1)
+        elif ins.op in ("getelementptr", "bitcast", "addrspacecast"):
+            m = re.search(r"ptr (" + ir.NAME + r")", ins.text)
+            if m:
+                self._collect_ptr_choices(m.group(1), vals, over, depth + 1)
+
     @staticmethod
     def _is_float_type(text):
         return bool(re.match(r"^phi (?:\w+ )*(double|float) ", text))
 
     def _mem_intrinsic(self, ins, vals, stores):
         args = ir.split_top(self.ff._call_args(ins.text))
-        dst = self.ff.prov(self.ff._arg_value(args[0]))
+        dst = self.pprov(self.ff._arg_value(args[0]), vals)
         ln = ir.parse_const(self.ff._arg_value(args[2]))
         if ln is None or dst.off is None:
             raise Unsupported("memory intrinsic with non-constant extent")
@@ -346,7 +511,7 @@ class PathEval:
                 else:
                     raise Unsupported("memset destination " + str(dst))
         else:
-            src = self.ff.prov(self.ff._arg_value(args[1]))
+            src = self.pprov(self.ff._arg_value(args[1]), vals)
             if src.off is None:
                 raise Unsupported("memcpy with non-constant source")
             for k in range(0, ln, 8):
@@ -373,8 +538,25 @@ class PathEval:
             raise Unsupported("load from global " + str(p.root[1]))
         raise Unsupported("load from " + str(p))
 
+    def _note_eq(self, c, value, vals):
+        """remember exact equality tests that hold on the current path (x == y decided true, x != y decided false)"""
+        ins = self.f.defs.get(c)
+        if ins is None or ins.op != "fcmp":
+            return
+        m = re.match(r"^fcmp (?:\w+ )*?(oeq|one|ueq|une) (?:double|float) (\S+?), (\S+)$", ins.text.strip())
+        if not m:
+            return
+        holds = value if m.group(1)[1:] == "eq" else (not value)
+        if holds and c not in self.path_eq_names:
+            self.path_eq_names.add(c)
+            try:
+                self.path_eqs.append((self._value(m.group(2), vals), self._value(m.group(3), vals)))
+            except Unsupported:
+                pass
+
     def _cond(self, c, vals, dec):
         if c in dec:
+            self._note_eq(c, dec[c], vals)
             return dec[c]
         ins = self.f.defs.get(c)
         if ins is None:
@@ -459,7 +641,7 @@ class PathEval:
             ty, ptr = m.group(1), m.group(2)
             if ty not in ("double", "float"):
                 raise Unsupported("load of type " + ty)
-            p = self.ff.prov(ptr)
+            p = self.pprov(ptr, vals)
             if p.off is None:
                 raise Unsupported("load with non-constant offset")
             r = self._load_cell(p, p.off, ty, vals)
